@@ -17,7 +17,7 @@ import (
 func init() {
 	register(Property{ID: "C13", Level: "proof", Run: runC13,
 		Technique: "static analysis: field-coverage comparison over the type-checked AST of Core.createResources / Core.closeResources (use-set vs compare-set per component, dependency closure, ordering)",
-		Text:      "For each of the components created in Core.createResources, every conf.Conf field read while creating it (condition, literal, helper arguments) is either compared in the component's close predicate in Core.closeResources (directly, or through an or-ed predicate of another component) or handed to an in-place Reload* call guarded by the negated predicate; every other component it references is in the closure of its predicate; dependants are closed before and created after their dependencies; every predicate contains newConf == nil; clause 2 (unchanged => kept): every compared field is used by the component and no pointer-typed field is compared by identity. Obligations = (component, field) and (component, dependency) pairs, all discharged or listed as findings. For the components reloaded in place (every Reload* method called by Core.closeResources) it is also decided on the SSA that the payload reaches a field of the component (not dropped) and that, in each function applying it, no value derived from the previous content of that field (an interval, a timer, a channel built from it) is used after the store without the field being read again - so the running service does not keep a schedule or state computed from the old configuration; and that at every hop of the reload chain (the Reload* methods called by closeResources, the run loops that receive their payload, the handlers those call, and the reload methods these call in turn: path manager -> path -> static source handler) the payload is stored or handed on on EVERY path from the point it enters the function to the return / the next wait of the run loop, so no state of the component (e.g. a source waiting to be re-created) makes it drop a reload. Not decided: that everything re-derived is complete (state kept in other fields of the component).",
+		Text:      "For each of the components created in Core.createResources, every conf.Conf field read while creating it (condition, literal, helper arguments) is either compared in the component's close predicate in Core.closeResources (directly, or through an or-ed predicate of another component) or handed to an in-place Reload* call guarded by the negated predicate; every other component it references is in the closure of its predicate; dependants are closed before and created after their dependencies; every predicate contains newConf == nil; clause 2 (unchanged => kept): every compared field is used by the component and no pointer-typed field is compared by identity. Obligations = (component, field) and (component, dependency) pairs, all discharged or listed as findings. For the components reloaded in place (every Reload* method called by Core.closeResources) it is also decided on the SSA that the payload reaches a field of the component (not dropped) and that, in each function applying it, no value derived from the previous content of that field (an interval, a timer, a channel built from it) is used after the store without the field being read again - so the running service does not keep a schedule or state computed from the old configuration; and that at every hop of the reload chain (the Reload* methods called by closeResources, the run loops that receive their payload, the handlers those call, and the reload methods these call in turn: path manager -> path -> static source handler) the payload is stored or handed on on EVERY path from the point it enters the function to the return / the next wait of the run loop, so no state of the component (e.g. a source waiting to be re-created) makes it drop a reload. Not decided: that everything re-derived is complete (state kept in other fields of the component). Also decided (hot_guard): an in-place Reload* call of component X inside closeResources is guarded, besides the comparison of the field it hands over, only by X's own negated close flag or by flags that X's flag includes - a foreign negated flag loses the reload whenever only the other component is recreated.",
 		Note:      "trusted: go/types; the component's Initialize() reads only the fields set in its literal (the literal is the component's whole configuration); reflect.DeepEqual / slices.Equal semantics"})
 	addMutants(
 		Mutant{"C13", "drop-hls-cdnsecret-compare", "internal/core/core.go",
